@@ -45,6 +45,14 @@ def run(ctx):
             ctx.violation(sig, {"what": "%s false for %s read of replica %s: root height %s, node height %s" % (
                 w, ev.get("event"), ev.get("r"), ev.get("h"), ev.get("at")), "event": small, "ctx": f.get("ctx"), "line": f["line"]})
     archival_module(ctx)
+    # extension: the same properties through the RPC server's handlers (spec/rpcstate, harness/c03rpc)
+    ep = os.path.join(os.path.dirname(os.path.abspath(__file__)), "c03_rpc.py")
+    if os.path.exists(ep):
+        import importlib.util
+        sp = importlib.util.spec_from_file_location("check_c03_rpc", ep)
+        m = importlib.util.module_from_spec(sp)
+        sp.loader.exec_module(m)
+        m.run_ext(ctx)
     if not fails:
         selftest(ctx, events)
     ctx.assumptions.append("retention per configuration: default keeps every height, RemoveUntraceableBlocks keeps heights within MaxTraceableBlocks of the tip, KeepOnlyLatestState only the current one; only retained heights are judged")
